@@ -85,6 +85,7 @@ func cmdCheck(args []string) int {
 	timeout := fs.Int("timeout", 20, "solver timeout (s)")
 	fs.Parse(args)
 	t0 := time.Now()
+	genTier = *tier
 	pc := propConfig(*prop, *verifDir)
 	patterns := pc.Pkgs
 	if *pkgs != "" {
